@@ -51,12 +51,16 @@ TRUSTED_BASE = [
 ]
 ASSUMPTIONS = [
     "NaN scores are outside the quantifier (no metric of the library returns NaN)",
-    "reproducibility across processes is tested (2-3 PYTHONHASHSEED values per configuration), not proved: a functional model cannot exhibit hash order",
+    "reproducibility across processes is tested (2-3 PYTHONHASHSEED values per configuration, plus the regression witness of the fixed "
+    "get_node_exclude_labels order defect), not proved: a functional model cannot exhibit hash order",
     "n_hof > n_pop (solver raises AttributeError in update_logs at generation 0) is treated as an error path: model and implementation must agree on the error class and generation",
     "measurement_determinism='probabilistic' runs are checked for reproducibility/order/aliasing only (the metric is then not a function of the circuit)",
 ]
 
-KNOWN_NODE_ORDER_KEY = "repro:hashseed:candidate-order:remove_op"
+# D28 residue (fixed in /repo 6f7407b): get_node_exclude_labels returned list(set(dag.nodes) - excluded), whose order depended on
+# PYTHONHASHSEED; remove_op indexed it with a seeded random integer.  WITNESS_JOB (seed 149 gave different halls of fame under hash
+# seeds 0 and 1) and the node_order walks are kept as regression tests: a divergence is reported under this key.
+NODE_ORDER_KEY = "repro:hashseed:candidate-order:remove_op"
 
 # ---------------------------------------------------------------------------------------------------------------- pool
 N_WORKERS = int(os.environ.get("C19_WORKERS", "8"))
@@ -491,7 +495,7 @@ def synth_update_hof(ctx, res, drv, heavy=False):
                     break
             for rep, rec in zip(drv.batch(lines), recs):
                 compare_update_hof(res, rep, rec)
-            if lines:
+            if lines and len(res.samples) < 2:
                 res.sample(lines[-1][:300])
         # -------- malformed stream: inf scores against (inf, None) entries, hof shorter than n_hof, n_hof = 0
         for _ in range(20 if ctx.quick else 100):
@@ -781,6 +785,10 @@ def gen_jobs(ctx, n_jobs, long_small=0):
             job["backend"] = "dm"
         if i % 11 == 7:
             job["det"] = "p"
+        if i % 23 == 5:
+            job["n_pop"], job["n_hof"] = 0, 1          # malformed: empty population -> IndexError in update_logs
+        if i % 29 == 7:
+            job["n_hof"] = 0                             # malformed: empty hall of fame -> IndexError in update_logs
         if solver == "evo" and i % 8 == 2:
             # the public `circuit=` argument: population_initialization copies one given circuit n_pop times; the circuit is
             # built by the solver's own transformations and has large node ids
@@ -1152,7 +1160,7 @@ def run_jobs_analyse(ctx, res, drv, pool, jobs, collected):
         res.count("sizes", f"n_pop={job['n_pop']},n_hof={job['n_hof']}")
         if "error" in a:
             res.count("errors", f"solve:{a['error']}")
-            if job["n_hof"] <= job["n_pop"]:
+            if 0 < job["n_hof"] <= job["n_pop"]:
                 res.notes.append(f"run raised {a.get('error_msg')} for job {job}")
                 res.count("errors", "solve:unexpected:" + a["error"])
         for role, out in runs.items():
@@ -1184,7 +1192,7 @@ def run_jobs_analyse(ctx, res, drv, pool, jobs, collected):
     if lines:
         res.sample(lines[0][:500])
     positions_checks(res, drv, [(jobs[ji], runs["A"]) for ji, runs in by_job.items() if "A" in runs])
-    # ---- the known finding: node-list order depends on the hash seed
+    # ---- regression witness of the fixed node-order defect (see NODE_ORDER_KEY)
     if "W0" in wit and "W1" in wit:
         w0, w1 = wit["W0"], wit["W1"]
         res.evaluations += 1
@@ -1199,7 +1207,7 @@ def run_jobs_analyse(ctx, res, drv, pool, jobs, collected):
                           final_hof_a=fh0, final_hof_b=fh1)
             res.extra["witness_final_hof_differs"] = fh0 != fh1
         else:
-            res.known_gone.append(KNOWN_NODE_ORDER_KEY)
+            res.extra["witness_runs_identical"] = True
     for key, runs in nod.items():
         outs_ = [runs[r] for r in sorted(runs)]
         base = outs_[0]
